@@ -297,6 +297,18 @@ Section C15b.
     is_err (flush st).
   Proof. intros. eapply hist_group_offends_flush; eassumption. Qed.
 
+  (* the repaired duplicate suppression (fixes/C15-om-later-exposure.diff): the sample that moves a group to another
+     timestamp is recorded and is then the only member of the duplicate set, so the next sample of the group at that
+     timestamp is recorded too unless it is the same series - a later exposure of a histogram group reaches
+     _check_histogram whole, and the theorems above apply to it (the pinned step: C15_later_exposure_orig_refuted) *)
+  Theorem C15b_later_exposure_recorded : forall st name s1 s2 l1 l2 st1 st2,
+    group_step st name s1 = Ok st1 -> ts_eqb (os_ts s1) (st_gts st) = false ->
+    group_step st1 name s2 = Ok st2 ->
+    os_labels s1 = Some l1 -> os_labels s2 = Some l2 ->
+    om_sid_eqb (os_name s2, sort_kv l2) (os_name s1, sort_kv l1) = false ->
+    st_samples st2 = s2 :: s1 :: st_samples st.
+  Proof. intros. eapply later_exposure_recorded; eassumption. Qed.
+
   (* bounds not strictly increasing (b2 <= b1) or counts not cumulative (v2 < v1) between two buckets of one group that
      are consecutive among its buckets: other samples of the group may stand between them (C15_hist_adjacent_buckets
      is the case mid = []); any group, any position, any state of the scan *)
@@ -800,10 +812,11 @@ a 1
 " = Ok fams.
 Proof. split; [reflexivity|]. eexists. vm_compute. reflexivity. Qed.
 
-(* FINDING (defect candidate in the parser, reproduced by the faithful model): a group exposed again at a later
-   timestamp.  group_timestamp_samples is reset only when the GROUP changes, not when its timestamp advances, so at the
-   later timestamp every series but the first is dropped as a duplicate before _check_histogram runs: the _count that
-   differs from the +Inf bucket (5 against 4), and the bucket that breaks the order, are never seen *)
+(* REPAIRED finding (fixes/C15-om-later-exposure.diff): a group exposed again at a later timestamp.  The pinned parser
+   emptied group_timestamp_samples only when the GROUP changed, not when its timestamp advanced, so at the later
+   timestamp every series but the first was dropped as a duplicate before _check_histogram ran: the _count that differs
+   from the +Inf bucket (5 against 4), and the bucket that breaks the order, were never seen and the documents were
+   accepted.  The model now describes the repaired step; om_group_step_orig is the pinned one. *)
 Definition ex_finding_count := "# TYPE a histogram
 a_bucket{le=""+Inf""} 3 1
 a_count 3 1
@@ -820,11 +833,60 @@ a_bucket{le=""+Inf""} 7 2
 a_bucket{le=""1""} 9 2
 # EOF
 "%string.
-Example C15b_finding_later_exposure_dropped :
-  is_ok (tparse ex_finding_count) = true /\ is_ok (tparse ex_finding_order) = true
-  /\ length (st_samples (tstate [L "# TYPE a histogram"; L "a_bucket{le=""+Inf""} 3 1"; L "a_count 3 1"; L "a_sum 1 1";
-                                 L "a_bucket{le=""+Inf""} 4 2"; L "a_count 5 2"; L "a_sum 1 2"])) = 4%nat.
+Definition ex_two_exposures := "# TYPE a histogram
+a_bucket{le=""+Inf""} 3 1
+a_count 3 1
+a_sum 1 1
+a_bucket{le=""+Inf""} 4 2
+a_count 4 2
+a_sum 2 2
+# EOF
+"%string.
+Definition ex_fc_lines := [L "# TYPE a histogram"; L "a_bucket{le=""+Inf""} 3 1"; L "a_count 3 1"; L "a_sum 1 1";
+                           L "a_bucket{le=""+Inf""} 4 2"; L "a_count 5 2"; L "a_sum 1 2"].
+(* the repaired model: all six samples reach the group checks, the documents are rejected; a valid second exposure
+   keeps its six samples *)
+Example C15b_finding_later_exposure_repaired :
+  tparse ex_finding_count = Err ValueError /\ tparse ex_finding_order = Err ValueError
+  /\ tprefix om_st_init ex_fc_lines [] = Ok (tstate ex_fc_lines, tacc ex_fc_lines)
+  /\ length (st_samples (tstate ex_fc_lines)) = 6%nat
+  /\ is_ok (tparse ex_two_exposures) = true
+  /\ length (st_samples (tstate (tlines ex_two_exposures))) = 6%nat.
 Proof. conjs; fin. Qed.
+
+(* the pinned group step against the repaired one, on the samples of ex_finding_count, from the state `# TYPE a histogram`
+   leads to: the pinned step keeps 4 of the 6 samples - a_count 5 2 is not among them - and _check_histogram accepts
+   the survivors; the repaired step keeps all 6 and _check_histogram rejects them *)
+Definition tgroup := om_group_step true Z Z.ltb Z.eqb (fun _ _ => None).
+Definition tgroup_orig := om_group_step_orig true Z Z.ltb Z.eqb (fun _ _ => None).
+Definition tcheck_hist := om_check_histogram Z toy_float Z.ltb Z.eqb 0%Z (10 ^ 400)%Z.
+Fixpoint tsteps (f : om_st Z -> str -> om_sample Z -> res (om_st Z)) (st : om_st Z) (name : str)
+                (ss : list (om_sample Z)) : res (om_st Z) :=
+  match ss with [] => Ok st | s :: r => do st' <- f st name s; tsteps f st' name r end.
+Definition tsamples_after (f : om_st Z -> str -> om_sample Z -> res (om_st Z)) (ss : list (om_sample Z)) : list (om_sample Z) :=
+  match tsteps f (tstate [L "# TYPE a histogram"]) (L "a") ss with Ok st => rev (st_samples st) | Err _ => [] end.
+Definition ex_fc_samples : list (om_sample Z) := map (tsample (Some OM_histogram)) (tl ex_fc_lines).
+Definition ex_fc_count5 : om_sample Z := tsample (Some OM_histogram) (L "a_count 5 2").
+
+Theorem C15_later_exposure_orig_refuted :
+  (exists st', tsteps tgroup_orig (tstate [L "# TYPE a histogram"]) (L "a") ex_fc_samples = Ok st')
+  /\ length (tsamples_after tgroup_orig ex_fc_samples) = 4%nat
+  /\ ~ In ex_fc_count5 (tsamples_after tgroup_orig ex_fc_samples)
+  /\ tcheck_hist (tsamples_after tgroup_orig ex_fc_samples) (L "a") = Ok tt
+  /\ tsamples_after tgroup ex_fc_samples = ex_fc_samples
+  /\ In ex_fc_count5 (tsamples_after tgroup ex_fc_samples)
+  /\ tcheck_hist (tsamples_after tgroup ex_fc_samples) (L "a") = Err ValueError
+  /\ tparse ex_finding_count = Err ValueError.
+Proof.
+  refine (conj _ _); [eexists; vm_compute; reflexivity|].
+  refine (conj _ _); [vm_compute; reflexivity|].
+  refine (conj _ _); [vm_compute; intros H; repeat (destruct H as [H|H]; [discriminate H|]); exact H|].
+  refine (conj _ _); [vm_compute; reflexivity|].
+  refine (conj _ _); [vm_compute; reflexivity|].
+  refine (conj _ _); [vm_compute; tauto|].
+  split; vm_compute; reflexivity.
+Qed.
+Print Assumptions C15_later_exposure_orig_refuted.
 
 (* the state-level statements: a filled field, a clashing family in progress, an offending unit in progress *)
 Example C15b_state_hypotheses_nonvacuous :
@@ -864,6 +926,7 @@ Print Assumptions C15b_hist_count_mismatch_flush.
 Print Assumptions C15b_failing_family_at_eof.
 Print Assumptions C15b_failing_family_closed_by_metadata.
 Print Assumptions C15b_failing_family_closed_by_sample.
+Print Assumptions C15b_later_exposure_recorded.
 Print Assumptions C15b_hist_buckets_in_group.
 Print Assumptions C15b_hist_no_inf_last_group.
 Print Assumptions C15b_hist_no_inf_any_group.
